@@ -144,7 +144,7 @@ func cmdVerify(args []string) {
 			bad++
 			continue
 		}
-		sp := ss.Funcs[key]
+		sp := ss.specFor(f)
 		if sp == nil {
 			sp = &FuncSpec{Loops: map[int]*LoopSpec{}, NoSafety: map[string]bool{}, CallSpecs: map[string]string{}}
 		}
